@@ -170,7 +170,7 @@ Section Base.
     if accepted pp p
     then match fs_get fs p with
          | Some c => perfile p (Some (enc c k)) ++ perfile_fp p (Some (enc c kf))
-         | None => perfile p None ++ perfile_fp p None
+         | None => perfile p (Some (absent_ver k)) ++ perfile_fp p (Some (absent_ver kf))
          end
     else [].
   Definition evid (pp k : option content) (fs : fsys) (ps : list path) : list fv := flat_map (evid1 pp k fs) ps.
